@@ -18,7 +18,7 @@ inductive LStmt where
   | checkIntIndex        -- `util.check_attr_type(index, int)`
   | checkBounds          -- `if not 0 <= index < len(data_frame.columns): raise OutOfBounds`
   | requireLink          -- `if not self.has_link: raise RuntimeError`
-  | convertTicks         -- `ticks = np.ascontiguousarray(ticks, dtype=DataType.Double)`
+  | convertTicks         -- `ticks = np.asarray(ticks, dtype=DataType.Double)` (a conversion of the argument)
   | checkAscending       -- `if np.any(np.diff(ticks) < 0): raise ValueError`
   | removeOldLink        -- `if self.has_link: self.remove_link()`
   | createLink (dotype : String)   -- `DimensionLink.create_new(self._file, self, self._h5group, <obj>, dotype, index)`
